@@ -75,6 +75,7 @@ def bounds(tier):
         "k": {"2": [0, 1, 2, 3, 4], "3": [0, 1, 2]},
         "p": [0, 1],
         "scale": ["normalize", "one"],
+        "call_histories": "every ordered pair (a,b) of an 11-instance menu run as a,b,a in one process from cleared caches",
     }
 
 
@@ -98,7 +99,9 @@ def cases(tier, seed):
                         out.append({"d": d, "G": name, "M": M, "k": k, "p": p, "cost": max(1, (size * size * len(grp)) // 40000), "grp": f"{d}/{M}/{k}"})
         # the assemblers
         out.append({"d": d, "assemble": True, "cost": 20})
-    out.sort(key=lambda c: (c["d"], c.get("M", 0) ** c["d"] * c["d"] ** c.get("k", 0)))
+    # call histories within ONE process (module-level caches): every ordered pair of a menu of small instances
+    out.append({"d": 2, "history": True, "cost": 40})
+    out.sort(key=lambda c: (c["d"], c.get("M", 0) ** c["d"] * c["d"] ** c.get("k", 0)))  # (history / assemble cases sort first)
     return out
 
 
@@ -143,7 +146,60 @@ def _assemble_case(case, tier="quick"):
     return {"violations": v[:5], "nt": True, "evals": evals, "outcome": f"assemble/d{D}"}
 
 
+HISTORY_MENU = [
+    # (D, M, k, p, group) — includes instances of equal basis size M^D*D^k (4: (1,2)/(2,0); 16: (2,2)/(4,0); 8 across d)
+    (2, 1, 2, 0, "B"), (2, 2, 0, 0, "B"), (2, 2, 2, 0, "B"), (2, 4, 0, 0, "B"), (2, 2, 1, 0, "B"), (3, 2, 0, 0, "B"),
+    # and the same (D,M,k,p) under different groups of equal order
+    (2, 3, 1, 0, "C4"), (2, 3, 1, 0, "C2^d"), (2, 3, 0, 1, "flip0"), (2, 3, 0, 1, "swap"), (2, 3, 1, 1, "rot180"),
+]
+
+
+def _history_case(case):
+    """Every ordered pair (a, b) of the menu is run as the call sequence a, b, a in one process, starting from
+    cleared module-level caches; every call must return the invariant, complete family of ITS OWN instance."""
+    import ginjax.geometric as geom
+    import ginjax.geometric.common as common
+
+    v = []
+    evals = 0
+
+    def check(inst, when):
+        D, M, k, p, gname = inst
+        grp = G.named_groups(D)[gname]
+        fs = geom.get_unique_invariant_filters(M, k, p, D, [np.array(g) for g in grp])
+        dim = G.burnside_dim(grp, M, k, p, D)
+        if len(fs) != dim:
+            return f"{when}: {len(fs)} filters for {inst}, dimension is {dim}"
+        for f in fs:
+            dat = np.asarray(f.data)
+            if dat.shape != (M,) * D + (D,) * k:
+                return f"{when}: filter of shape {dat.shape} for {inst}"
+            for g in grp:
+                if not np.array_equal(ref_action(dat, p, g, D), dat):
+                    return f"{when}: a filter of {inst} is not invariant under its group"
+        return None
+
+    for a in HISTORY_MENU:
+        for b in HISTORY_MENU:
+            if a == b:
+                continue
+            for name in dir(common):
+                obj = getattr(common, name)
+                if isinstance(obj, dict) and "cache" in name.lower():
+                    obj.clear()
+            for inst, when in ((a, "first call"), (b, f"after {a}"), (a, f"after {a},{b}")):
+                evals += 1
+                msg = check(inst, when)
+                if msg:
+                    if len(v) < 5:
+                        v.append(viol("C03/history/" + ("same-type-other-group" if a[:4] == b[:4] else "other-instance"), msg, case=case, history=[list(map(str, a)), list(map(str, b))]))
+                    break
+    return {"violations": v, "nt": True, "evals": evals, "outcome": "history"}
+
+
 def run_case(case, seed):
+    if case.get("history"):
+        return _history_case(case)
     if case.get("assemble"):
         return _assemble_case(case)
     import ginjax.geometric as geom
